@@ -141,16 +141,25 @@ def safe_pformat(obj, st, limit=1.5):
     """pformat with a watchdog: a print that raises (incl. RecursionError) or does not finish within `limit` seconds is
     reported as text 'EXC:...' — never crashes or hangs the harness.  These prints take milliseconds; so that a loaded machine
     cannot turn a slow print into an alarm, a print that exceeds the limit is tried once more with twenty times the limit."""
+    if _confirmed_hangs[0] >= 3:
+        limit = min(limit, 0.3)
     r = _safe_pformat_once(obj, st, limit)
     if r.startswith('EXC:does-not-terminate'):
+        if _confirmed_hangs[0] >= 3:
+            return r          # three prints of this process already hung for twenty times the limit: the code under test hangs
         r = _safe_pformat_once(obj, st, limit * 20)
+        if r.startswith('EXC:does-not-terminate'):
+            _confirmed_hangs[0] += 1
     return r
+
+
+_confirmed_hangs = [0]
 
 
 def _safe_pformat_once(obj, st, limit):
     import signal
     old = signal.signal(signal.SIGALRM, _alarm)
-    signal.setitimer(signal.ITIMER_REAL, limit)
+    signal.setitimer(signal.ITIMER_REAL, limit, 0.25)      # keeps firing: a time-out raised at a moment where it is swallowed is raised again
     try:
         with warnings.catch_warnings():
             warnings.simplefilter('ignore')
